@@ -394,16 +394,25 @@ class InlineCode:
 
 def _memo_hits(fn):
     hits = []
+    # locals that name a container of the statement (`seen = self._seen`), also when used from a nested helper
+    alias = {t.id for a in ast.walk(fn) if isinstance(a, ast.Assign) and (dotted(a.value) or "").startswith("self.") and (dotted(a.value) or "").count(".") == 1
+             for t in a.targets if isinstance(t, ast.Name)}
+
+    def _dd(node):
+        d = dotted(node)
+        if d and d.split(".")[0] in alias:
+            return "self." + d
+        return d
     for n in ast.walk(fn):
         if isinstance(n, ast.Call) and isinstance(n.func, ast.Attribute) and n.func.attr in ("add", "append", "update", "extend", "insert", "setdefault", "discard", "remove", "clear", "pop"):
-            d = dotted(n.func.value) or ""
+            d = _dd(n.func.value) or ""
             if d.startswith("self."):
                 hits.append((n, f"`{src(n)[:50]}` updates a container of the statement"))
         if isinstance(n, (ast.Assign, ast.AugAssign, ast.Delete)):
             for t in (n.targets if not isinstance(n, ast.AugAssign) else [n.target]):
-                if isinstance(t, ast.Subscript) and (dotted(t.value) or "").startswith("self."):
+                if isinstance(t, ast.Subscript) and (_dd(t.value) or "").startswith("self."):
                     hits.append((n, f"`{src(n)[:50]}` updates a container of the statement"))
-        if isinstance(n, ast.Compare) and any(isinstance(o, (ast.In, ast.NotIn)) for o in n.ops) and any((dotted(c) or "").startswith("self.") for c in n.comparators):
+        if isinstance(n, ast.Compare) and any(isinstance(o, (ast.In, ast.NotIn)) for o in n.ops) and any((_dd(c) or "").startswith("self.") for c in n.comparators):
             if any(isinstance(a, (ast.If, ast.IfExp, ast.While)) for a in [n]) or True:
                 hits.append((n, f"`{src(n)[:50]}` consults a container of the statement"))
     return hits
